@@ -321,3 +321,18 @@ package escape
 //@   loop n invariant cur_arg: forall p *Node :: visited(n, p) ==> g.status[p] >= Leaked
 //@   loop ret invariant grew3: statusGrew(g)
 //@   loop ret invariant done_args3: forall aj int, p *Node :: 0 <= aj && aj < len(args) && old(has(g.edges, args[aj]) && has(g.edges[args[aj]], p)) ==> g.status[p] >= Leaked
+
+// ---------------------------------------------------------------------------
+// C07: the function containing a json.Marshal / json.Unmarshal call may be a synthetic
+// function or an instance of a generic function, whose Pkg is nil: the program is not
+// reached through it.
+//@ func functionAnalysisState.jsonMarshal
+//@   property C07
+//@   option havoc:*
+//@   requires ea != nil && instrType != nil && g != nil
+//@   nilsafe ssa.Function.Pkg
+//@ func functionAnalysisState.jsonUnmarshal
+//@   property C07
+//@   option havoc:*
+//@   requires ea != nil && instrType != nil && g != nil
+//@   nilsafe ssa.Function.Pkg
